@@ -90,6 +90,10 @@ func (C18) Generate(rng *rand.Rand, tier string) []core.Case {
 			for _, k := range names {
 				toks = append(toks, live[k])
 			}
+			if failing && rng.Intn(2) == 0 {
+				// the supplier fails for some shards of a namespace and not for others
+				fail = fmt.Sprintf("0:0 failk=%d", 1+rng.Intn(15))
+			}
 			ops = append(ops, fmt.Sprintf("cs.apply servers=%d fail=%s %s", servers, fail, strings.Join(toks, " ")))
 			for _, k := range names {
 				if rng.Intn(2) == 0 {
@@ -208,8 +212,11 @@ func (e *c18Exec) op(op string) string {
 		}
 		cfg := &model.ClusterConfig{}
 		servers, mod, rem := 3, 0, 0
+		failk := 0
 		for _, t := range f[1:] {
 			switch {
+			case strings.HasPrefix(t, "failk="):
+				failk, _ = strconv.Atoi(t[6:])
 			case strings.HasPrefix(t, "servers="):
 				servers, _ = strconv.Atoi(t[8:])
 			case strings.HasPrefix(t, "fail="):
@@ -226,9 +233,19 @@ func (e *c18Exec) op(op string) string {
 		for i := 0; i < servers; i++ {
 			cfg.Servers = append(cfg.Servers, model.Server{Public: fmt.Sprintf("s%d", i), Internal: fmt.Sprintf("s%d", i)})
 		}
+		// failk: the supplier fails for the k-th shard (0, 1, ...) of a namespace when bit k is set - the real
+		// supplier looks at the cluster as it is at that moment, it need not fail for all shards or none
+		lastNs, k := "", -1
 		supplier := func(nc *model.NamespaceConfig, st *model.ClusterStatus) ([]model.Server, error) {
+			if nc.Name != lastNs {
+				lastNs, k = nc.Name, -1
+			}
+			k++
 			if mod != 0 && int(st.ServerIdx)%mod == rem {
 				return nil, errors.New("no ensemble")
+			}
+			if k < 16 && failk&(1<<uint(k)) != 0 {
+				return nil, errors.New("no ensemble for this shard")
 			}
 			if int(nc.ReplicationFactor) > servers {
 				return nil, errors.New("not enough servers")
@@ -356,6 +373,7 @@ func isPartition(toks []string) string {
 // routed to exactly one shard after an update with a partition.
 func (C18) Oracle(ops, impl, model []string) string {
 	seenIDs := map[int64]bool{}
+	idOwner := map[int64]string{}
 	failing := false
 	updated := false
 	for i, o := range ops {
@@ -392,8 +410,38 @@ func (C18) Oracle(ops, impl, model []string) string {
 		case "cs.reset":
 			seenIDs = map[int64]bool{}
 			failing = false
+			idOwner = map[int64]string{}
 		case "cs.apply":
-			failing = failing || !strings.Contains(o, "fail=0:0")
+			failing = failing || !strings.Contains(o, "fail=0:0") || strings.Contains(o, "failk=")
+			// shard ids are unique across the namespaces, below the generator, and never handed out twice
+			var gen int64 = -1
+			for _, t := range strings.Fields(out) {
+				if strings.HasPrefix(t, "gen=") {
+					gen, _ = strconv.ParseInt(t[4:], 10, 64)
+					continue
+				}
+				b := strings.Index(t, "[")
+				if !strings.HasPrefix(t, "ns") || b < 0 || !strings.HasSuffix(t, "]") {
+					continue
+				}
+				name := t[:b]
+				for _, sh := range strings.Split(t[b+1:len(t)-1], ",") {
+					if sh == "" {
+						continue
+					}
+					id, err := strconv.ParseInt(strings.SplitN(sh, ":", 2)[0], 10, 64)
+					if err != nil {
+						continue
+					}
+					if owner, ok := idOwner[id]; ok && owner != name {
+						return fmt.Sprintf("op %d: shard id %d, handed out to %s before, now belongs to %s: shard ids are not unique", i, id, owner, name)
+					}
+					idOwner[id] = name
+					if gen >= 0 && id >= gen {
+						return fmt.Sprintf("op %d: shard id %d of %s is not below the id generator (%d): the next namespace will get it again", i, id, name, gen)
+					}
+				}
+			}
 		case "cs.published":
 			if out == "none" || !strings.HasPrefix(out, "n=") {
 				continue
